@@ -89,6 +89,8 @@ def main(tier):
         nb += nb1
         bare_and_deep(chk, 3000 if tier == "quick" else 40000, chk.seed)
         if tier == "thorough":
+            from . import suite
+            suite.validate_suite_pytrees(chk, "C08")      # the PyTree checks of the repository's own tests
             for i, u in enumerate(THOROUGH):
                 n2, nb2 = P.run_table(chk, "C08", u, f"thorough{i}", P.LEAF_INVS)
                 nb += nb2
